@@ -139,6 +139,16 @@ def creation_fallback(R, ctx):
             kind, good = 'modification', bool(got_m & set(modified)) and not got_c and not got_n
         else:
             kind, good = 'now', bool(got_n) and not got_c and not got_m
+        # preference order: a less reliable source may only be used after the more reliable one was ASKED and failed on this row
+        asked_c = [i + 1 for i, e in enumerate(r.effects) if e[0].endswith('::created')]
+        asked_m = [i + 1 for i, e in enumerate(r.effects) if e[0].endswith('::modified')]
+        mds = [okeff.get(i + 1) for i, e in enumerate(r.effects) if e[0] == 'std::fs::metadata']
+        md_ok = bool(mds) and all(mds)
+        if good and kind == 'modification' and not (asked_c and not any(okeff.get(i) for i in asked_c)):
+            ok, why = False, ("the modification time is returned on a path on which the creation time was not asked for first (or was available): the start of the current file's "
+                              "period becomes its last-write time - after a restart a file whose buffered tail was flushed in the next period is not rotated at the first write")
+        if good and kind == 'now' and md_ok and not (asked_c and asked_m):
+            ok, why = False, "the clock is used although creation / modification time of the file were not both asked for"
         if not good:
             ok, why = False, f"creation time available: {bool(created)}, modification time available: {bool(modified)}: the result is {r.long(repr(r.result))[:120]}, documented: the {kind} time"
         if not ok:
